@@ -316,12 +316,16 @@ def r4_markers(P, rep, ctx):
     rep.check(ok, "C01.R4", f.fi.qual, "_is_del_mark recognises exactly DEL_VALUE", f.fi.loc(), construct="_is_del_mark", message=f"_is_del_mark is {f.return_texts()}")
     f = F(ctx, P.func(f"{O}._node_is_del_mark"))
     a = f.fi.params[0]
-    calls = f.call_sites("_is_del_mark(__v)")
-    ok = bool(calls) and all(f.x(b["__v"]) in (f"{a}[()] if isinstance({a}, h5py.Dataset) else {a}", f"{a} if not isinstance({a}, h5py.Dataset) else {a}[()]") for _, c, b in calls) and f.hit_before(f.g.exit, nodes=[i for i, c, b in calls])
-    if not ok and calls:
-        # if/else form: the argument is node[()] under isinstance(node, h5py.Dataset) and node otherwise
-        ds = f.tests(f"isinstance({a}, h5py.Dataset)")
-        ok = bool(ds) and f.hit_before(f.g.exit, nodes=[i for i, c, b in calls]) and {f.x(b["__v"]) for _, c, b in calls} <= {f"{a}[()]", a} and any(f.x(b["__v"]) == f"{a}[()]" for _, c, b in calls)
+    try:
+        vp = f.value_paths()
+    except ValueError:
+        vp = []
+    ok = bool(vp)
+    for lits, val, node in vp:
+        d = dict(lits)
+        is_ds = d.get(f"isinstance({a}, h5py.Dataset)")
+        want = f"_is_del_mark({a}[()])" if is_ds else f"_is_del_mark({a})"
+        ok = ok and is_ds is not None and norm(val) == want
     rep.check(ok, "C01.R4", f.fi.qual, "_node_is_del_mark reads dataset values with [()] and attribute values as is", f.fi.loc(), construct="_node_is_del_mark", message="_node_is_del_mark does not dereference datasets with [()]")
     f = F(ctx, P.func(f"{O}._node_is_virtual"))
     a = f.fi.params[0]
@@ -340,7 +344,7 @@ def r4_markers(P, rep, ctx):
     ok = ok and all(f.hit_before(f.g.exit, nodes=f.test_nodes(subst), src_edge=e) or True for e in f.tests("self._is_attrs"))
     rep.check(ok, "C01.R4", f.fi.qual, "_guard_key refuses the substitution key for attributes", f.fi.loc(), construct="_guard_key SUBST test", message="_guard_key accepts SUBST_KEY as attribute name")
     rx = [c for _, c, b in f.call_sites("re.match(___)")]
-    rep.check(len(rx) == 1 and f.x(rx[0].args[0]) == "'^[!-~]+$'", "C01.R4", f.fi.qual, "keys are restricted to printable ASCII", f.fi.loc(), construct="key alphabet", message="_guard_key no longer restricts keys to ^[!-~]+$")
+    rep.check(len({norm(c) for c in rx}) == 1 and f.x(rx[0].args[0]) == "'^[!-~]+$'", "C01.R4", f.fi.qual, "keys are restricted to printable ASCII", f.fi.loc(), construct="key alphabet", message="_guard_key no longer restricts keys to ^[!-~]+$")
     # readers use the shared predicates
     ch = P.func(f"{O}.IH5InnerNode._children")
     rep.check("_node_is_virtual(" in norm(ch.node) and "_node_is_del_mark(" in norm(ch.node) and "SUBST_KEY" in norm(ch.node), "C01.R4", ch.qual, "_children uses the shared marker predicates/constants", ch.loc(), construct="predicates in _children", message="_children does not use _node_is_virtual/_node_is_del_mark/SUBST_KEY")
@@ -389,48 +393,48 @@ def r6_move_copy(P, rep, ctx):
     cpf = P.func(f"{O}.IH5Group.copy")
     c = F(ctx, cpf)
     src_p, dst_p = cpf.params[1], cpf.params[2]
-    is_path = c.tests(f"isinstance({dst_p}, str)")
-    sinks = c.call_sites("h5_copy_from_to(__s, __g, __n, ___)")
     problems = []
-    if not sinks or not is_path:
-        problems.append("no h5_copy_from_to call / no `isinstance(dest, str)` dispatch")
-    d = local_defs(cpf)
-
-    def alts(e):
-        """possible values of an expression: expand names with several definitions one level at a time"""
-        e = c.xe(e)
-        if isinstance(e, ast.Call) and norm(e.func) == "cast" and len(e.args) == 2:
-            e = e.args[1]
-        if isinstance(e, ast.Name) and e.id in d and all(k.startswith("assign") for k, v in d[e.id]):
-            out = []
-            for k, v in d[e.id]:
-                if v is not None:
-                    out += alts(v)
-            return out
-        return [e]
-
-    for _, call, b in sinks:
-        srcs = {c.x(x) for x in alts(b["__s"])}
-        if srcs != {f"self[{src_p}] if isinstance({src_p}, str) else {src_p}"} and srcs != {f"{src_p} if not isinstance({src_p}, str) else self[{src_p}]"}:
-            problems.append(f"source resolved as {sorted(srcs)}")
-        grp = sorted(c.x(x) for x in alts(b["__g"]))
-        want_path = f"self.require_group('/'.join(self._abs_path({dst_p}).split('/')[:-1]) or '/')"
-        want_node = {f"{dst_p} if {dst_p}.name != '/' else {dst_p}['/']", f"{dst_p}['/'] if {dst_p}.name == '/' else {dst_p}"}
-        if not (len(grp) == 2 and want_path in grp and (set(grp) - {want_path}) <= want_node):
-            problems.append(f"destination group resolved as {grp}")
-        nm = sorted(c.x(x) for x in alts(b["__n"]))
-        want_seg = f"self._abs_path({dst_p}).split('/')[-1]"
-        want_name = f"kwargs.pop('name', ({c.x(b['__s'])}).name.split('/')[-1])"
-        nm_norm = sorted(x.replace("(" + c.x(b["__s"]) + ")", "SRC").replace(c.x(b["__s"]), "SRC") for x in nm)
-        if not (len(nm) == 2 and want_seg in nm and any("kwargs.pop('name', " in x and ".name.split('/')[-1])" in x for x in nm)):
-            problems.append(f"destination name resolved as {nm}")
+    try:
+        vp = c.value_paths()
+    except ValueError as e:
+        raise AnalysisError(f"C01.R6: IH5Group.copy has an unrecognised control flow ({e})")
+    SRC_T, SRC_F = f"self[{src_p}]", src_p
+    n_paths = 0
+    for lits, val, node in vp:
+        m = M.match("h5_copy_from_to(__s, __g, __n, ___)", val)
+        if m is None:
+            problems.append(f"result is {norm(val)[:60]}")
+            continue
+        n_paths += 1
+        d = dict(lits)
+        src_is_str = d.get(f"isinstance({src_p}, str)")
+        dst_is_str = d.get(f"isinstance({dst_p}, str)")
+        root_dest = d.get(f"{dst_p}.name == '/'")
+        sx = norm(m["__s"])
+        if src_is_str is None or sx != (SRC_T if src_is_str else SRC_F):
+            problems.append(f"source resolved as {sx} (source is str: {src_is_str})")
+        gx = norm(m["__g"])
+        if gx.startswith("cast(Any, ") and gx.endswith(")"):
+            gx = gx[len("cast(Any, "):-1]
+        nx = norm(m["__n"])
+        if dst_is_str is None:
+            problems.append("destination kind is not tested with isinstance(dest, str)")
+        elif dst_is_str:
+            if gx != f"self.require_group('/'.join(self._abs_path({dst_p}).split('/')[:-1]) or '/')":
+                problems.append(f"path destination: group resolved as {gx}")
+            if nx != f"self._abs_path({dst_p}).split('/')[-1]":
+                problems.append(f"path destination: name resolved as {nx}")
+        else:
+            want_g = f"{dst_p}['/']" if root_dest else dst_p
+            if root_dest is None or gx != want_g:
+                problems.append(f"group destination: group resolved as {gx} (dest is the root: {root_dest})")
+            if nx != f"kwargs.pop('name', {sx}.name.split('/')[-1])":
+                problems.append(f"group destination: name resolved as {nx}")
+    if n_paths < 4:
+        problems.append(f"only {n_paths} resolution paths found")
     rep.check(not problems, "C01.R6", cpf.qual, "copy: a path destination means <parent group>/<last segment>; a group destination means <group>/<given or source name>", cpf.loc(), construct="copy destination resolution",
-              message=f"IH5Group.copy resolves source/destination differently from h5py ({'; '.join(problems)})")
-    # the path form applies exactly when dest is a str
-    seg_stores = [n.idx for n in c.g.nodes if n.kind == "stmt" and isinstance(n.stmt, (ast.Assign, ast.AnnAssign)) and n.stmt.value is not None and c.x(n.stmt.value) == f"self._abs_path({dst_p}).split('/')[-1]"]
-    node_stores = [n.idx for n in c.g.nodes if n.kind == "stmt" and isinstance(n.stmt, (ast.Assign, ast.AnnAssign)) and n.stmt.value is not None and c.x(n.stmt.value) in (f"{dst_p} if {dst_p}.name != '/' else {dst_p}['/']", f"{dst_p}['/'] if {dst_p}.name == '/' else {dst_p}")]
-    ok = bool(is_path) and bool(seg_stores) and bool(node_stores) and c.all_hit_before(seg_stores, edges=is_path) and c.all_hit_before(node_stores, edges=c.neg(is_path))
-    rep.check(ok, "C01.R6", cpf.qual, "the path form applies exactly when dest is a str", cpf.loc(), construct="dest kind test", message="IH5Group.copy treats str / node destinations the wrong way round")
+              message=f"IH5Group.copy resolves source/destination differently from h5py ({'; '.join(sorted(set(problems)))})")
+    rep.check(not [p_ for p_ in problems if "destination" in p_], "C01.R6", cpf.qual, "the path form applies exactly when dest is a str", cpf.loc(), construct="dest kind test", message="IH5Group.copy treats str / node destinations the wrong way round")
     from .common import require_total
 
     for q in (f"{O}.IH5Group.copy", f"{O}.IH5Group.create_dataset", f"{O}.IH5Group.create_group", f"{O}.IH5Group._create_virtual", f"{O}.IH5InnerNode._children", f"{O}.IH5InnerNode._node_seq", f"{O}.IH5InnerNode._find", f"{O}.IH5InnerNode.__getitem__", f"{O}.IH5InnerNode.__contains__", f"{O}.IH5InnerNode._expect_real_item_idx", f"{O}.IH5InnerNode._get_child", f"{O}.IH5InnerNode._get_child_raw", f"{O}._list_children"):
